@@ -317,6 +317,25 @@ func runC19(c *fw.Ctx) {
 			c.Sample(cs)
 		}
 	}
+	// directed: approvals meet the branch rule exactly while a global threshold asks
+	// for one principal more; feature histories mixing an authorized and an
+	// unauthorized commit under the same file rule (in both orders)
+	all := []string{"k1", "k2", "k3"}
+	directed := []c19Case{
+		{Trusted: all, Threshold: 2, AuthSigners: []string{"k1", "k2"}, GlobalThr: 3, FeatureBy: []string{"k1"}},
+		{Trusted: all, Threshold: 1, AuthSigners: []string{"k1"}, GlobalThr: 2, FeatureBy: []string{"k2"}, MergeCommit: true},
+		{Trusted: all, Threshold: 2, AuthSigners: []string{"k1", "k2"}, GlobalThr: 2, FeatureBy: []string{"k1"}},
+		{Trusted: all, Threshold: 1, AuthSigners: []string{"k2"}, FileRule: true, TouchProt: true, FeatureBy: []string{"k1", "kx"}},
+		{Trusted: all, Threshold: 1, AuthSigners: []string{"k2"}, FileRule: true, TouchProt: true, FeatureBy: []string{"kx", "k1"}},
+		{Trusted: all, Threshold: 1, AuthSigners: []string{"k2"}, FileRule: true, TouchProt: true, FeatureBy: []string{"k1", "kx", "k1"}, MergeCommit: true},
+		{Trusted: all, Threshold: 1, AuthSigners: []string{"k2"}, FileRule: true, TouchProt: true, FeatureBy: []string{"k1", "k1", "kx"}},
+		{Trusted: all, Threshold: 1, AuthSigners: []string{"k2"}, FileRule: true, TouchProt: true, FeatureBy: []string{"kx", "k1", "kx"}},
+	}
+	for i, cs := range directed {
+		if c.Mine(i) {
+			c19Judge(c, cs)
+		}
+	}
 }
 
 func replayC19(c *fw.Ctx, raw json.RawMessage) error {
